@@ -70,7 +70,7 @@ def extra(sp, rng):
     ft = f.translated(v) + 0.75
     yield 'right-scaled(zero)', lambda: ft * 0.0, ('smooth',), lambda x: ft(0.0 * x)
     yield 'left-scaled(zero)', lambda: 0.0 * ft, ('smooth',), lambda x: 0.0
-    if not util.is_pspace(sp) and sp.ndim == 1 and 2 <= sp.size <= 10 and util.weighting_tag(sp) == 'none' and type(sp).__name__ == 'NumpyTensorSpace':
+    if not util.is_pspace(sp) and sp.ndim == 1 and 2 <= sp.size <= 10 and type(sp).__name__ == 'NumpyTensorSpace':
         for c in (1.0, 2.5, 100.0):
             def rosen(x, c=c):
                 a = np.asarray(x)
